@@ -38,6 +38,10 @@ class World:
         from netqasm.sdk.transpile import NVSubroutineTranspiler
         world.reset()
         self.budget = budget
+        # "<config>/flushed": every operation is followed by a flush at once; the state then is only (handles, allocation),
+        # so the graph closes and histories of any length are covered (with a flush after every operation)
+        self.autoflush = config.endswith("/flushed")
+        config = config.split("/")[0]
         self.config = config
         self.epr = EPRSocket("bob")
         kwargs: Dict[str, Any] = {"epr_sockets": [self.epr], "max_qubits": budget}
@@ -67,7 +71,7 @@ class World:
 
 def events_for(w: World) -> List[Tuple]:
     n = len(w.live)
-    ev: List[Tuple] = [("flush",)]
+    ev: List[Tuple] = [] if w.autoflush else [("flush",)]
     if w.must_flush:
         # after an operation whose handles are consumed inside the subroutine only a flush can validate the agreement
         return ev
@@ -76,6 +80,8 @@ def events_for(w: World) -> List[Tuple]:
         ev.append(("new",))
         ev.append(("create_keep", 1))
         ev.append(("recv_keep", 1))
+        ev.append(("create_keep_seq", 1))
+        ev.append(("recv_keep_seq", 1))
         ev.append(("create_seq_post", 2))
         ev.append(("recv_seq_post", 2))
         ev.append(("create_seq_post", 1))
@@ -128,6 +134,13 @@ def apply(w: World, ev: Tuple) -> None:
         w.live.extend(epr.create_keep(number=ev[1]))
     elif k == "recv_keep":
         w.live.extend(epr.recv_keep(number=ev[1]))
+    elif k in ("create_keep_seq", "recv_keep_seq"):
+        # sequential without a post routine: the handle is returned to the program; it is used at once, in the same
+        # subroutine (the pair is delivered only when the subroutine waits for it)
+        f = epr.create_keep if k.startswith("create") else epr.recv_keep
+        qs = f(number=ev[1], sequential=True)
+        qs[0].H()
+        w.live.extend(qs)
     elif k in ("create_seq_post", "recv_seq_post"):
         def post(c, q, pair):
             q.H()
@@ -143,6 +156,10 @@ def apply(w: World, ev: Tuple) -> None:
         w.must_flush = True
     else:
         raise AssertionError(ev)
+    if w.autoflush and k != "flush":
+        conn.flush()
+        w.must_flush = False
+        w.cc_free_electron = False
 
 
 def classify(exc: Exception) -> str:
@@ -205,28 +222,31 @@ def expand(shard):
             part["transitions"] += 1
             count(part, f"event/{ev[0]}")
             case = {"budget": budget, "config": config, "history": [list(e) for e in h2]}
+            flushed = ev[0] == "flush" or w.autoflush
+            cfg0 = config.split("/")[0]
+            blame = (lambda k: h2[k][0]) if w.autoflush else (lambda k: _blame(h2, k))
             if err is not None:
                 i, cls, msg = err
                 where = "flush" if h2[i][0] == "flush" else h2[i][0]
-                if h2[i][0] != "flush":
-                    fp = f"{cls}/{h2[i][0]}" if cls.startswith("sdk-assertion") else f"{cls}/{config}/{h2[i][0]}"
+                if h2[i][0] != "flush" and not w.autoflush:
+                    fp = f"{cls}/{h2[i][0]}" if cls.startswith("sdk-assertion") else f"{cls}/{cfg0}/{h2[i][0]}"
                 elif cls == "gate-on-unallocated-qubit" and w.cc_free_electron:
                     fp = "gate-on-unallocated-qubit/carbon-carbon-gate-borrows-free-electron"
                 else:
-                    fp = f"{cls}/{config}/{_blame(h2, i)}"
+                    fp = (f"{cls}/{blame(i)}" if cls.startswith("sdk-assertion") else f"{cls}/{cfg0}/{blame(i)}")
                 add_violation(part, fp, f"{config}, budget {budget}: {where} fails: {msg}", case)
                 continue
-            if ev[0] == "flush":
+            if flushed:
                 alloc = w.allocated()
                 active = sorted(q.qubit_id for q in w.conn.active_qubits)
                 live = sorted(q.qubit_id for q in w.live)
                 if active != alloc:
-                    add_violation(part, f"active-qubits-differ/{_blame(h2, len(h2) - 1)}",
+                    add_violation(part, f"active-qubits-differ/{blame(len(h2) - 1)}",
                                   f"{config}, budget {budget}: after flush conn.active_qubits ids {active} != controller allocated {alloc}",
                                   case, {"live_handles": live})
                     continue
                 if live != alloc:
-                    add_violation(part, f"live-handles-differ/{config}/{_blame(h2, len(h2) - 1)}",
+                    add_violation(part, f"live-handles-differ/{cfg0}/{blame(len(h2) - 1)}",
                                   f"{config}, budget {budget}: handles the program holds have ids {live}, controller allocated {alloc}", case)
                     continue
                 count(part, "flush-agrees")
@@ -246,7 +266,8 @@ def _blame(history, i) -> str:
         if k != "flush":
             kinds.append(k)
         j -= 1
-    pri = ["create_context_seq", "recv_context_seq", "create_context", "recv_context", "create_seq_post", "recv_seq_post", "free", "create_keep", "recv_keep", "cnot",
+    pri = ["create_context_seq", "recv_context_seq", "create_context", "recv_context", "create_seq_post", "recv_seq_post", "free",
+           "create_keep_seq", "recv_keep_seq", "create_keep", "recv_keep", "cnot",
            "measure", "meas_inplace", "new", "gate"]
     for p in pri:
         if p in kinds:
@@ -293,7 +314,7 @@ def run(ctx):
         [("recv_keep", 2), ("flush",), ("free", 1), ("flush",)], [("create_seq_post", 2), ("flush",)])])
     if ctx.tier == "quick":
         plan = {1: 5, 2: 4, 3: 4, 4: 3, 5: 3}
-        cap = 12000
+        cap = 30000
     else:
         plan = {1: 8, 2: 7, 3: 6, 4: 5, 5: 5}
         cap = 60000
@@ -302,10 +323,17 @@ def run(ctx):
             if config != "generic" and budget == 1:
                 continue       # single-communication-qubit hardware with one qubit: no live qubit allowed at all
             bfs(ctx, budget, config, depth, cap)
+    # every operation flushed at once: run until the frontier is empty (all histories of any length)
+    for config in CONFIGS:
+        for budget in (2, 3, 4):
+            left = bfs(ctx, budget, config + "/flushed", 60, cap)
+            if left:
+                ctx.total["caps"].append(f"{config}/flushed budget {budget}: graph not closed within depth 60")
     ctx.exhaustive = True
     ctx.total["samples"].append({"budget": 3, "config": "nv", "history": [["new"], ["create_keep", 1], ["flush"], ["measure", 0], ["flush"]]})
     for k in ("flush", "new", "gate", "cnot", "meas_inplace", "measure", "free", "create_keep", "recv_keep", "create_seq_post",
-              "recv_seq_post", "create_context", "recv_context", "create_context_seq", "recv_context_seq"):
+              "recv_seq_post", "create_context", "recv_context", "create_context_seq", "recv_context_seq", "create_keep_seq",
+              "recv_keep_seq"):
         ctx.require(f"event/{k}", 1)
     ctx.require("flush-agrees", 50)
 
